@@ -43,18 +43,37 @@ def classify(d, text, answer):
 def run(ctx):
     n = 2500 if ctx.quick else 60000
     ctx.cov["rule"] = ("(a) accounting: generated and corpus statements of every kind, printed in the dialect they were written in (where the dialect's printer supports the tree): "
-                       "the multiset of identifiers and literals of the input (NAME / LITERAL tokens that are not grammar keywords) must equal that of the printed text; "
+                       "the multiset of identifiers and literals of the input (NAME / LITERAL tokens that are not grammar keywords) must equal that of the printed text — the input cut into tokens both by the library's lexer and by the independent reference tokenizer (what was WRITTEN, whatever the lexer makes of it); "
                        "(b) stray token: the fresh identifier %s (or a fresh literal) inserted at a random token boundary of a valid text must give an error or a tree that "
                        "contains it; correspondence on every parse. distinct_nontrivial = distinct accepted trees" % FRESH)
     r = ctx.rng.fork("c08")
     cases = [(d, t, "regression") for d, t in pfam.regression_cases("C08")] + [(d, t, "corpus") for d, t in pfam.corpus_statements()]
     cases += pfam.scripts(r, n, wild=0.0, single=True)
     cases += [(d, t, "tree-first") for d, t in pfam.tree_texts(ctx.rng.fork("trees"), 100 if ctx.quick else 2500)]
+    # the same statements with comments written between their tokens (two or three per text, of every shape incl. star runs before the closing slash, empty
+    # comments, comment openers inside comments): nothing but the comments may disappear — judged against the reference tokenizer's reading of the text
+    import lexstreams
+    closed = [c for c in lexstreams.COMMENTS if c.endswith(("*/", "\n"))]
+    rc = ctx.rng.fork("commented")
+    base = [c for c in cases if c[2] not in ("regression", "corpus") and len(c[1]) < 600 and not any(k in c[1] for k in ("/*", "--", "#"))]
+    for d, t, _ in rc.shuffle(base)[: 500 if ctx.quick else 12000]:
+        bs = boundaries(t)
+        if len(bs) < 2:
+            continue
+        for b in sorted(rc.shuffle(bs)[: 2 + rc.below(2)], reverse=True):
+            t = t[:b] + " " + rc.choice(closed) + " " + t[b:]
+        cases.append((d, t, "commented"))
     res, _ = ctx.corr([pfam.req_parse(d, t) for d, t, _ in cases], stream="parse")
     acc = E.run_impl(["ACC %s %s" % (d, E.enhex(t)) for d, t, _ in cases])
     for (d, t, kind), a in zip(cases, acc):
         k = a.split(" ")[1] if a.startswith("OK ") else a.split(" ")[0]
         ctx.count("accounting:" + k.split(":")[0])
+        if a.startswith("OK differs-from-the-written-text"):
+            # the library's lexer and the reference tokenizer cut the INPUT differently: token grammar is C05's business where a listed departure explains it
+            from props import c05
+            import reflex
+            if c05.hash_in_word(reflex.normalise(t)):
+                ctx.count("accounting:lexers-differ:hash-in-word(F-C05-1)"); continue
         if a.startswith("OK differs") or a.startswith("OK printed-text-does-not-lex"):
             what = "lost" if "lost=[]" not in a else "gained"
             cls = classify(d, t, a)
